@@ -260,6 +260,101 @@ func c03Run(c *fw.Ctx) {
 			c.Res.Note("%v", caseDesc())
 		}
 	})
+
+	// A request on which the proxy first goes to the authenticator (revalidation or refresh due): the
+	// identity the upstream is told is that of the session AFTER the round trip — the one the proxy
+	// stores in the re-issued cookie — whatever the presented cookie and the client said.
+	var renv *harness.ProxyEnv
+	defer func() {
+		if renv != nil {
+			renv.Close()
+		}
+	}()
+	drive(c, "after-provider-round-trip", -1, func(x *explore.Exec, owned bool) {
+		if renv == nil {
+			y := "- service: svca\n  default:\n    from: " + hostA + "\n    to: {{backend:a}}\n    options:\n      allowed_groups:\n        - eng\n        - oncall\n"
+			var err error
+			renv, err = harness.NewProxyEnv(harness.ProxyOpts{YAML: y, Backends: []string{"a"}, TemplateVars: map[string]string{}})
+			if err != nil {
+				panic(explore.HarnessError{Msg: err.Error()})
+			}
+		}
+		e := renv
+		due := []string{"revalidation-due", "refresh-due"}[x.Choose("due", 2)]
+		cookieGroups := [][]string{{"eng", "ops"}, {"eng"}, {"eng", "oncall"}, nil}[x.Choose("cookie-groups", 4)]
+		nowGroups := [][]string{{"eng"}, {"eng", "oncall"}, {"oncall"}}[x.Choose("groups-now", 3)]
+		clientHdr := []string{"", "X-Forwarded-Groups: admins", "x-forwarded-groups: admins\r\nX-Forwarded-Email: root@sso.test\r\nX-Forwarded-User: root"}[x.Choose("client-headers", 3)]
+		cp := *sess
+		cp.Groups = cookieGroups
+		if due == "revalidation-due" {
+			cp.ValidDeadline = harness.At(-time.Second)
+		} else {
+			cp.RefreshDeadline = harness.At(-time.Second)
+		}
+		e.Auth.Answer = func(ac *harness.AuthCall) harness.AuthAnswer {
+			switch ac.Endpoint {
+			case "validate":
+				return harness.AuthAnswer{Status: 200}
+			case "refresh":
+				return harness.AuthAnswer{Status: 201, Body: `{"access_token":"access-token-after-refresh","expires_in":3600}`}
+			case "profile":
+				return harness.AuthAnswer{Status: 200, Body: harness.JSON(map[string]interface{}{"email": cp.Email, "groups": nowGroups})}
+			}
+			return harness.AuthAnswer{Status: 500, Body: "unexpected"}
+		}
+		sealed := e.Seal(&cp)
+		raw := "GET /private/page HTTP/1.1\r\nHost: " + hostA + "\r\n"
+		if clientHdr != "" {
+			raw += clientHdr + "\r\n"
+		}
+		raw += "Cookie: " + harness.CookieName + "=" + sealed + "\r\nConnection: close\r\n\r\n"
+		resp, err := e.DoRaw(raw)
+		if err != nil {
+			panic(explore.HarnessError{Msg: "raw request failed: " + err.Error()})
+		}
+		calls := resp.Calls
+		if !owned {
+			return
+		}
+		detail := map[string]interface{}{"due": due, "cookie_groups": cookieGroups, "authenticator_says_groups": nowGroups, "client_headers": clientHdr, "status": resp.Status, "authenticator_calls": len(calls)}
+		viol := func(key, what string) {
+			c.Res.Violate(fw.Violation{Property: "C03", Key: "C03/after-provider-round-trip/" + key, What: what, Scenario: "after-provider-round-trip", Choices: x.Choices(), Detail: detail})
+		}
+		if len(calls) == 0 {
+			viol("no-round-trip/"+due, "the harness expected the proxy to consult the authenticator on this request and it did not")
+			return
+		}
+		if len(resp.Hits) != 1 {
+			viol("not-forwarded/"+due, fmt.Sprintf("expected the request to reach the backend once, got %d hits (status %d)", len(resp.Hits), resp.Status))
+			return
+		}
+		now := &cp
+		reissued := false
+		if ck := resp.Cookie(harness.CookieName); ck != nil && ck.Value != "" {
+			if o := e.Open(ck.Value); o != nil {
+				now, reissued = o, true
+			}
+		}
+		detail["cookie_reissued"], detail["stored_groups"], detail["backend_received"] = reissued, now.Groups, resp.Hits[0].Header
+		if reissued {
+			c.Res.Count("positive_round_trip_reissued_"+due, 1)
+		}
+		if strings.Join(now.Groups, ",") != strings.Join(cookieGroups, ",") {
+			c.Res.Count("positive_round_trip_changed_groups", 1)
+		}
+		for h, want := range map[string]string{"X-Forwarded-User": now.User, "X-Forwarded-Email": now.Email, "X-Forwarded-Groups": strings.Join(now.Groups, ",")} {
+			if got := resp.Hits[0].Header[h]; len(got) != 1 || got[0] != want {
+				viol("identity-header-not-the-stored-session/"+h+"/"+due, fmt.Sprintf("upstream received %s: %q, the session the proxy stored on this request says %q (the presented cookie said groups %v)", h, got, want, cookieGroups))
+			}
+		}
+		if got := resp.Hits[0].Header["X-Forwarded-Access-Token"]; len(got) > 0 {
+			viol("access-token-when-disabled/"+due, fmt.Sprintf("pass_access_token is off but the upstream received X-Forwarded-Access-Token: %q", got))
+		}
+		c.Res.Outcome(fmt.Sprintf("round-trip|%s|%v|%v|%v|%d", due, cookieGroups, now.Groups, clientHdr != "", len(resp.Hits)))
+		if c.Replay != nil {
+			c.Res.Note("%v", detail)
+		}
+	})
 }
 
 func cookieSet(l [][2]string) string {
@@ -279,6 +374,7 @@ func init() {
 			"for each of the four identity headers a client variant {absent, canonical, lower-case sent twice (thorough: mixed case, empty value)} x 12 Cookie header layouts (session cookie name followed by a space / a tab before '=', session cookie only/first/middle/last, two session cookies, prefix and suffix look-alike names, quoted values, separate Cookie lines, no space, '=' in values) " +
 			"x handling {authenticated, skip-auth path, CORS preflight (OPTIONS) on an upstream that lets preflights through, authenticated on an upstream with skip_request_signing, /favicon.ico matched by a skip-auth pattern} x session groups {two, none} x Connection header {plain, nominating identity headers} x inject_request_headers {none, unrelated, colliding with an identity header}; " +
 			"oracle at the backend: authenticated => the three identity headers exactly once with the session's values and no access-token header (option off); skip-auth and preflight => all four absent; the session cookie never arrives; every other cookie arrives with the same name and value; " +
+			"second scenario after-provider-round-trip: session due for {revalidation, refresh} x cookie groups {4} x groups the authenticator now reports {3} x client identity headers {none, forged groups, forged all}: the three identity headers at the backend equal the session the proxy stored in the cookie it re-issued on that very request; " +
 			"distinct_nontrivial = distinct (handling, layout, inject, connection, client header variants) cases that were forwarded",
 		Assumptions:    []string{"pass_access_token cannot be enabled through the YAML options (parseOptionsConfig does not copy it), so only the 'disabled' half of that clause is exercised", "preflight skipping likewise cannot be configured"},
 		Parallel:       true,
